@@ -541,7 +541,8 @@ def r11_trailer_errors_count(ctx):
     fn = ctx.func('x12n_document', 'x12n_document')
     g = ctx.cfg(fn)
     dom = g.dominators()
-    valid_nodes = [nd for nd in g.nodes if any(isinstance(x, ast.Call) and A.call_target(x) == ('node', 'is_valid') for x in g.walk_exprs(nd))]
+    cur = A.current_node_var(fn) or 'node'
+    valid_nodes = [nd for nd in g.nodes if any(isinstance(x, ast.Call) and A.call_target(x) == (cur, 'is_valid') for x in g.walk_exprs(nd))]
     if not valid_nodes:
         raise AnalysisError('x12n_document: node.is_valid call not found')
     for lvl, cname, counter in (('st', 'err_st', 'err_count'), ('gs', 'err_gs', '_get_ack_code')):
